@@ -64,6 +64,9 @@ World gen_world(Rng &r) {
     for (uint32_t id : ids) {
         if (!w.pw(id) && r.chance(2, 3)) w.passwd.push_back({id, "usr" + std::string(1, (char)('a' + k)) + std::to_string(id % 97)});
         if (!w.gr(id) && r.chance(2, 3)) w.group.push_back({id, "grp" + std::string(1, (char)('a' + k)) + std::to_string(id % 89)});
+        // the rest of the entry: member lists of groups run to kilobytes, a passwd entry can carry a long gecos field - more than the 1024 bytes
+        // sysconf(_SC_GETxx_R_SIZE_MAX) suggests as the initial buffer
+        if (r.chance(1, 6)) { static const uint32_t big[] = {300, 1000, 1030, 1100, 3000, 20000, 70000}; if (!w.group.empty() && w.group.back().id == id) w.group.back().entry_bytes = big[r.below(7)]; if (r.chance(1, 3) && !w.passwd.empty() && w.passwd.back().id == id) w.passwd.back().entry_bytes = big[r.below(5)]; }
         k++;
     }
     // ancestor chain
